@@ -25,6 +25,7 @@ THEOREMS = ["final_with_second_pass", "final_with_rebalance", "balancing_consist
             "loss_pair", "full_pti", "same_machine"]
 DEPENDS_ON_MODULES = ["FeemsProofs.C06"]
 BAL = E.STORAGE_KINDS + ("pti_pto",)
+D16 = "hybrid-balance-pti-outside-covered-range"       # known finding D16 as it shows in the hybrid balance
 
 
 def run_case(ctx, case, model=True):
@@ -53,12 +54,21 @@ def run_case(ctx, case, model=True):
         rated = p["rated"]
         ln = p.get("shaft_line", 1)
         eps = 0.005 * rated
+        # load range in which every stage's efficiency characteristic is given (outside it the stages are
+        # extrapolated and the interpolated inverse loses the 0.5 % figure: known finding D16)
+        stages = p.get("stages") or [p]
+        lo = max(plants.comps.covered_range(sc["curve"])[0] * sc["rated"] / rated for sc in stages)
+        hi = min(min(plants.comps.covered_range(sc["curve"])[1], 0.99) * sc["rated"] / rated for sc in stages)
+        inside = lambda *xs: all(x == 0 or lo <= abs(x) / rated <= hi for x in xs)
         for t in range(n):
             full = bool(mi["comp"][p["name"]]["full"][t])
             shaft_given = mi["comp"][p["name"]]["shaft"][t]
             balancing = p["name"] in case.get("balancing_pti", [])
             ein, sout = float(eobs[p["name"]]["in"][t]), float(mobs[p["name"]]["out"][t])
             L = sum(mobs[c["name"]]["in"][t] for c in M.by_line(spec, ln, "mech_load"))
+            cov = inside(shaft_given, ein, sout, *([L] if full else []))
+            ctx.count("pti_load_range", "covered" if cov else "extrapolated-or-near-rated")
+            tag = (lambda name: name) if cov else (lambda name: D16)
             ctx.count("step_kind", "balancing" if balancing else ("full-pti" if full else ("pti" if shaft_given > 0 else ("pto" if shaft_given < 0 else "idle"))))
             if full and abs(L) > 0.98 * rated:
                 ctx.count("skipped_step", "load-above-pti-rating")
@@ -82,7 +92,7 @@ def run_case(ctx, case, model=True):
             elif over:
                 ctx.count("skipped_step", "bus-asks-a-balancing-pti-above-its-rating")
             elif abs(delivered - drawn) > eps:
-                ctx.fail("predicate", "electric-balance-with-pti-over-0.5pct", f"step {t}: bus {sorted(g)} delivered {delivered} drawn {drawn} (PTI/PTO rated {rated})", where)
+                ctx.fail("predicate", tag("electric-balance-with-pti-over-0.5pct"), f"step {t}: bus {sorted(g)} delivered {delivered} drawn {drawn} (PTI/PTO rated {rated})", where)
             if balancing and (p["name"] in over or max(abs(ein), abs(sout)) > 0.98 * rated):
                 ctx.count("skipped_step", "balancing-share-above-pti-rating")       # the bus asks more of it than its rating
                 continue
@@ -90,16 +100,16 @@ def run_case(ctx, case, model=True):
             eng = sum(mobs[c["name"]]["out"][t] for c in M.by_line(spec, ln, "main_engine"))
             avail = sum(c["rated"] for c in M.by_line(spec, ln, "main_engine") if mi["comp"][c["name"]]["status"][t])
             if (avail > 0 or full) and abs(eng + sout - L) > eps:
-                ctx.fail("predicate", "shaft-balance-with-pti-over-0.5pct", f"step {t}: line {ln} engines {eng} + PTI/PTO {sout} vs load {L} (rated {rated})", where)
+                ctx.fail("predicate", tag("shaft-balance-with-pti-over-0.5pct"), f"step {t}: line {ln} engines {eng} + PTI/PTO {sout} vs load {L} (rated {rated})", where)
             # the two powers are a conversion pair of the machine
             pair_f = float(obj.get_power_input_from_bidirectional_output(sout)[0])
             pair_g = float(obj.get_power_output_from_bidirectional_input(ein)[0])
             if min(abs(pair_f - ein), abs(pair_g - sout)) > eps:
-                ctx.fail("predicate", "pti-powers-not-a-conversion-pair", f"step {t}: electrical {ein} / shaft {sout}: f(shaft)={pair_f}, g(electrical)={pair_g}", where)
+                ctx.fail("predicate", tag("pti-powers-not-a-conversion-pair"), f"step {t}: electrical {ein} / shaft {sout}: f(shaft)={pair_f}, g(electrical)={pair_g}", where)
             if full:
                 eff = float(obj.get_efficiency_from_load_percentage(abs(L) / rated))
                 if abs(sout - L) > eps or abs(ein - L / eff) > eps:
-                    ctx.fail("predicate", "full-pti-not-load-plus-loss", f"step {t}: load {L}, shaft {sout}, electrical {ein}, load/eff {L / eff}", where)
+                    ctx.fail("predicate", tag("full-pti-not-load-plus-loss"), f"step {t}: load {L}, shaft {sout}, electrical {ein}, load/eff {L / eff}", where)
             # ---- correspondence
             if model and ctx.model_available and not balancing:
                 x0 = float(obj.get_power_input_from_bidirectional_output(float(shaft_given))[0])      # what the harness set
@@ -174,7 +184,8 @@ def run_config_case(ctx, rng, model=True):
     """same-machine rule: electric and mechanical side given the same / different PTI/PTO objects"""
     espec = plants.gen_electric_plant(rng, n_swb=1, with_pti=False, with_storage=False)
     k = int(rng.integers(0, 3))
-    ptis = [plants.gen_serial_spec(rng, "pti_pto", f"p{i}", 1, 500.0, shaft_line=i + 1) for i in range(k)]
+    swb = espec["electric"][0]["swb"]          # the only switchboard need not be number 1
+    ptis = [plants.gen_serial_spec(rng, "pti_pto", f"p{i}", swb, 500.0, shaft_line=i + 1) for i in range(k)]
     mode = str(rng.choice(["same", "copy", "deepcopy", "fewer", "none"]))
     ctx.count("config", f"{mode}:{k}")
     e_objs = [plants.build_electric_component(p) for p in ptis]
